@@ -2,6 +2,7 @@ package main
 
 import (
 	"fmt"
+	"go/token"
 	"go/types"
 	"math/big"
 	"strings"
@@ -107,12 +108,15 @@ func (c *FnCtx) execBuiltin(x *ssa.Call, b *ssa.Builtin, common *ssa.CallCommon,
 		mt := common.Args[0].Type().Underlying().(*types.Map)
 		m := c.term(common.Args[0])
 		k := c.term(common.Args[1])
-		hk, hs, _, _ := c.g.mapHeapKeys(mt)
+		hk, hs, vk, vs := c.g.mapHeapKeys(mt)
 		has := c.heap(st, hk, hs)
+		vals := c.heap(st, vk, vs)
 		ml := c.heap(st, "MLen", arraySort(SInt, SInt))
 		was := sel(sel(has, m), k)
 		st.heaps["MLen"] = store(ml, m, ite(was, sub(sel(ml, m), intLit(1)), sel(ml, m)))
-		st.heaps[hk] = store(has, m, store(sel(has, m), k, tFalse))
+		newHasArr := c.named("mh", store(sel(has, m), k, tFalse))
+		c.mapCountFact(mt, sel(has, m), sel(vals, m), newHasArr, sel(vals, m), k, nil)
+		st.heaps[hk] = store(has, m, newHasArr)
 	case "clear":
 		if mt, ok := common.Args[0].Type().Underlying().(*types.Map); ok {
 			m := c.term(common.Args[0])
@@ -284,7 +288,36 @@ func (c *FnCtx) libraryModel(x *ssa.Call, obj *types.Func, common *ssa.CallCommo
 		return true
 	case "(*sync.Mutex).Lock", "(*sync.Mutex).Unlock", "(*sync.RWMutex).Lock", "(*sync.RWMutex).Unlock",
 		"(*sync.RWMutex).RLock", "(*sync.RWMutex).RUnlock":
-		c.g.note("mutex operations are no-ops in the sequential model")
+		// Locks listed in a "lock" table of the contracts carry a ghost flag ($Name: held). Acquiring
+		// lock i requires that neither it nor any lock later in the table is held (lock order).
+		if len(common.Args) > 0 {
+			if fa, ok := common.Args[0].(*ssa.FieldAddr); ok {
+				if pt, ok := fa.X.Type().Underlying().(*types.Pointer); ok {
+					if nt, ok := types.Unalias(pt.Elem()).(*types.Named); ok {
+						stt := nt.Underlying().(*types.Struct)
+						key := nt.Obj().Name() + "." + stt.Field(fa.Field).Name()
+						for i, le := range c.g.contracts.Locks {
+							if le.Field != key {
+								continue
+							}
+							if strings.HasSuffix(obj.Name(), "Unlock") {
+								c.setGhost(st, le.Ghost, tFalse)
+								return true
+							}
+							var free []Term
+							for _, later := range c.g.contracts.Locks[i:] {
+								free = append(free, not(c.ghost(st, later.Ghost)))
+							}
+							c.oblige("lockorder", le.Field+"@"+c.posString(token.NoPos), *reach, and(free...),
+								"acquiring "+le.Field+": neither it nor a lock later in the lock order is held")
+							c.setGhost(st, le.Ghost, tTrue)
+							return true
+						}
+					}
+				}
+			}
+		}
+		c.g.note("mutex operations outside the lock table are no-ops in the sequential model")
 		return true
 	case "time.Now":
 		used()
